@@ -6,13 +6,16 @@ import sys, os, difflib
 prop, name = sys.argv[1], sys.argv[2]
 rest = sys.argv[3:]
 out = []
+orig, cur = {}, {}
 for i in range(0, len(rest), 3):
     f, old, new = rest[i:i+3]
-    src = open(os.path.join('/repo', f)).read()
-    if src.count(old) != 1:
-        sys.exit(f"{f}: OLD occurs {src.count(old)} times: {old!r}")
-    dst = src.replace(old, new)
-    out += list(difflib.unified_diff(src.splitlines(True), dst.splitlines(True), 'a/' + f, 'b/' + f))
+    if f not in cur:
+        orig[f] = cur[f] = open(os.path.join('/repo', f)).read()
+    if cur[f].count(old) != 1:
+        sys.exit(f"{f}: OLD occurs {cur[f].count(old)} times: {old!r}")
+    cur[f] = cur[f].replace(old, new)
+for f in cur:
+    out += list(difflib.unified_diff(orig[f].splitlines(True), cur[f].splitlines(True), 'a/' + f, 'b/' + f))
 d = os.path.join('/verif/selftest/mutants', prop)
 os.makedirs(d, exist_ok=True)
 open(os.path.join(d, name + '.patch'), 'w').write(''.join(out))
